@@ -95,7 +95,7 @@ PROPS = {
     ),
     "C10": dict(
         title="Blacklisting refunds in full and excludes; un-blacklisting restores",
-        lean=["LP.Props.C10", "LP.Props.C10frame", "LP.Props.C10reach", "LP.Props.C09nothing", "LP.Props.C10roundtrip"],
+        lean=["LP.Props.C10", "LP.Props.C10frame", "LP.Props.C10reach", "LP.Props.C09nothing", "LP.Props.C10roundtrip", "LP.Props.C10roundtripExec"],
         profiles=[("life", ALL_VARIANTS), ("reserve", GUAR)],
         R={"st": [(BL_EPS, None), ({"confirm"}, ["blacklist"])], "xf": {"blacklist", "refundUsers"}},
         D={k: BL_EPS for k in ["addr.bl", "addr.conf", "addr.uts", "addr.bluts", "wl", "tg", "nrw", "payers",
